@@ -134,5 +134,61 @@ theorem armor_src_fault_no_eof (W : Nat) (t : Bytes) : (read W true t).2 = .err 
   | none => rfl
   | some rest => exact hbody _ rest
 
+/-! ## non-vacuity witnesses -/
+
+/-- non-vacuity of `dearmor_armor`: the whitespace budget of the code -/
+theorem dearmor_armor_nonvacuous : 0 < 1024 := by decide
+
+/-- non-vacuity of `armor_writer_never_fails`: the destination that accepts everything -/
+theorem armor_writer_never_fails_nonvacuous : DstSpec.perfect.NeverFails := DstSpec.perfect_neverFails
+
+/-- non-vacuity of `armor_writer_refines_spec`: a never-failing destination already holding one byte; writes of 2, 0 and 3
+    bytes (each with its own split into destination writes) and Close: no call reports an error -/
+theorem armor_writer_refines_spec_nonvacuous :
+    ∀ r ∈ ((AWriter.new ({ acc := [9], st := () } : Dst DstSpec.perfect)).run
+      (aopsOf [([1, 2], [3]), ([], []), ([3, 4, 5], [1, 1])])).2, r = none :=
+  armor_writer_never_fails DstSpec.perfect_neverFails _ _
+
+/-- its conclusion there: the destination holds the old byte and the armor of the five bytes -/
+example : ((AWriter.new ({ acc := [9], st := () } : Dst DstSpec.perfect)).run
+      (aopsOf [([1, 2], [3]), ([], []), ([3, 4, 5], [1, 1])])).1.dst.acc = [9] ++ armor [1, 2, 3, 4, 5] :=
+  armor_writer_refines_spec _ _ armor_writer_refines_spec_nonvacuous
+
+/-- non-vacuity of `armor_canonical`: a text that is NOT `armor b` but within the tolerances is accepted: a whitespace-only
+    first line, CRLF line ends, the body line `AQIDBAU=`, and white space after the END line; it yields the bytes 1..5 -/
+theorem armor_canonical_nonvacuous :
+    read 1024 false ([32, 9, 13, 10] ++ header ++ [13, 10] ++ [65, 81, 73, 68, 66, 65, 85, 61] ++ [13, 10] ++
+      footer ++ [13, 10, 32, 10]) = ([1, 2, 3, 4, 5], .eof) := by rfl
+
+/-- non-vacuity of `armor_reader_refines_spec`: that same 86-byte text read in 100 calls of 3 bytes -/
+theorem armor_reader_refines_spec_nonvacuous :
+    (∀ s ∈ List.replicate 100 3, 0 < s) ∧
+    (read 1024 false ([32, 9, 13, 10] ++ header ++ [13, 10] ++ [65, 81, 73, 68, 66, 65, 85, 61] ++ [13, 10] ++
+      footer ++ [13, 10, 32, 10])).1.length +
+      ([32, 9, 13, 10] ++ header ++ [13, 10] ++ [65, 81, 73, 68, 66, 65, 85, 61] ++ [13, 10] ++
+        footer ++ [13, 10, 32, 10]).length + 2 < (List.replicate 100 3).length := by
+  refine ⟨fun s hs => by rw [List.eq_of_mem_replicate hs]; decide, ?_⟩
+  rw [armor_canonical_nonvacuous]
+  decide
+
+/-- non-vacuity of `armor_error_leaves_no_data`: a first `Read` of 5 bytes on the text `x\n` (no BEGIN line) reports an error -/
+theorem armor_error_leaves_no_data_nonvacuous :
+    0 < 5 ∧ (AReader.new [120, 10]).read1 1024 false 5 =
+      ({ started := false, unread := [], err := some .err, rest := [120, 10], removed := 0 }, [], some .err) :=
+  ⟨by decide, by rfl⟩
+
+/-- non-vacuity of `armor_reader_sticky`: the state that failed `Read` left behind (previous witness) has the error set and
+    nothing buffered. (So has the state after a clean end: see the `example` below.) -/
+theorem armor_reader_sticky_nonvacuous :
+    ({ started := false, unread := [], err := some .err, rest := [120, 10], removed := 0 } : AReader).err = some .err ∧
+    ({ started := false, unread := [], err := some .err, rest := [120, 10], removed := 0 } : AReader).unread = [] := ⟨rfl, rfl⟩
+
+/-- the tolerant text read in calls of 3: bytes `1,2,3`, then `4,5`, then the clean end, which is sticky -/
+example : ∃ r1 r2 r3,
+    (AReader.new ([32, 9, 13, 10] ++ header ++ [13, 10] ++ [65, 81, 73, 68, 66, 65, 85, 61] ++ [13, 10] ++
+      footer ++ [13, 10, 32, 10])).read1 1024 false 3 = (r1, [1, 2, 3], none) ∧
+    r1.read1 1024 false 3 = (r2, [4, 5], none) ∧ r2.read1 1024 false 3 = (r3, [], some .eof) ∧
+    r3.read1 1024 false 3 = (r3, [], some .eof) := ⟨_, _, _, by rfl, by rfl, by rfl, by rfl⟩
+
 end Props.C08
 end AgeModel
